@@ -138,8 +138,13 @@ def run(ctx):
     for r in results:
         by_case.setdefault((r["name"], r["seed"], r["variant"]), []).append(r)
     known_cases = {c: f["id"] for f in ctx.findings if f["status"] == "open" for c in f.get("cases", [])}
-    differing, validated, nontrivial = 0, 0, 0
+    differing, validated, nontrivial, inconclusive = 0, 0, 0, []
     for key, rs in sorted(by_case.items()):
+        # a run cut short by the runner's own wall-clock budget (or by the subprocess timeout) says nothing about
+        # determinism: where it was cut depends on machine load, so the case is counted as not decided
+        if any(r["verdict"] in ("wall-timeout", "runner-error:TimeoutExpired") for r in rs):
+            inconclusive.append(f"{key[0]}:{key[2]}")
+            continue
         if any(r["verdict"].startswith("runner-error") for r in rs):
             ctx.violation("harness-error", dict(case=key, results=rs), no_failing_input=True)
             continue
@@ -161,7 +166,7 @@ def run(ctx):
         evaluations=len(results), distinct_nontrivial=nontrivial, traces_validated_against_impl=validated,
         rule="every scenario x variant run in fresh interpreters (quick: PYTHONHASHSEED 0 and 4242-after-3-unrelated-simulations; thorough adds PYTHONHASHSEED 1); digests of (time, type, target) deliveries and of component statistics must agree; non-trivial = >= 20 events",
         samples=[dict(case=list(k), digests=[r["digest"][:12] if r["digest"] else None for r in v]) for k, v in list(sorted(by_case.items()))[:3]],
-        scenarios=len(names), environments=envs, differing_cases=differing, source_files_scanned=nfiles,
+        scenarios=len(names), environments=envs, differing_cases=differing, cases_not_decided_wall_budget=inconclusive, source_files_scanned=nfiles,
         env_sites=len(sites["env_sites"]), env_site_kinds={k: sum(1 for s in sites["env_sites"] if s[2] == k) for k in sorted({s[2] for s in sites["env_sites"]})},
     )
     ctx.finish_obligations()
